@@ -44,7 +44,8 @@ def main():
     # from them (directly or through an import), so that a table left behind by a run on other sources is never used
     gens_needed = list(spec.get("gen") or [])
     closure = hv.import_closure(modules + ["Driver.Main"])
-    for name, fname in (("grid", "GridTables.lean"), ("anchors", "Anchors.lean"), ("orbits", "OrbitArms.lean")):
+    for name, fname in (("grid", "GridTables.lean"), ("anchors", "Anchors.lean"), ("orbits", "OrbitArms.lean"),
+                        ("cores", "LinkCores.lean")):
         if name not in gens_needed and any(f.endswith(os.path.join("Gen", fname)) for f in closure):
             gens_needed.append(name)
     if gens_needed:
